@@ -57,6 +57,8 @@ var registry = []*HarnessSpec{
 	{Prop: "C02", Name: "zzH02overlap", Pkg: pkgConfig, Tier: "quick", Params: map[string]int{"n": 2, "n@thorough": 3}, Bounds: "2 (3) prefix or route stanzas with arbitrary canonical IPv6 prefixes (incl. the wildcards)"},
 	{Prop: "C01", Name: "zzH02iface", Pkg: pkgConfig, Tier: "quick", Bounds: "name/names groups: every interface gets its own plugin objects"},
 	{Prop: "C02", Name: "zzH02iface", Pkg: pkgConfig, Tier: "quick", Bounds: "name set/unset x 0..2 names x monitor x advertise x garbage advertising keys"},
+	{Prop: "C02", Name: "zzH02compose", Pkg: pkgConfig, Tier: "quick", Bounds: "one whole advertising interface with two stanzas of every list kind, concrete valid values; at most one of 19 components corrupted (the second stanza of a list)"},
+	{Prop: "C03", Name: "zzH12wire", Pkg: pkgCorerad, Extra: []string{pkgConfig}, Tier: "quick", Bounds: "framing: RAs with one to three options of different kinds (RDNSS + DNSSL; MTU + captive portal + PREF64) through ndp.MarshalMessage / ndp.ParseMessage"},
 	{Prop: "C02", Name: "zzH02parse", Pkg: pkgConfig, Tier: "quick", Bounds: "0..3 interface groups of 1-2 names from a pool of three; debug address set/unset, resolvable or not; decoder failing or not"},
 	{Prop: "C02", Name: "zzH02pref64", Pkg: pkgConfig, Tier: "quick", Bounds: "one pref64 stanza: prefix absent / empty / unparsable / any IPv4 or IPv6 prefix of any length"},
 	{Prop: "C02", Name: "zzH02dnssl", Pkg: pkgConfig, Tier: "quick", Bounds: "one dnssl stanza: lifetime of every shape, 0..3 names from three tokens"},
@@ -78,6 +80,7 @@ var registry = []*HarnessSpec{
 	{Prop: "C09", Name: "zzH09a", Pkg: pkgCorerad, Tier: "quick", Params: map[string]int{"k": 8, "k@thorough": 12}, Bounds: "0..k-1 consecutive messages with any hop limit != 255 followed by a valid one (k=8, thorough 12)"},
 	{Prop: "C10", Name: "zzH10c", Pkg: pkgCorerad, Tier: "quick", Bounds: "0..6 read timeouts followed by a message, a non-timeout net.Error or another error"},
 	{Prop: "C18", Name: "zzH18", Pkg: pkgCorerad, Tier: "quick", Bounds: "one message: RS/NS/NA or an RA with symbolic header, 0..2 prefix options (all fields symbolic, whole-second lifetimes incl. 0 and 2^32-1 s) and an unknown option; receipt instant any wall-clock ns value; sender an opaque string"},
+	{Prop: "C18", Name: "zzH18seq", Pkg: pkgCorerad, Tier: "quick", Bounds: "two messages through Monitor.monitor (real Listen and callback) from one sender with / without a zone: an RA followed by an RA / RS / NA; router and prefix lifetimes, flags symbolic"},
 	{Prop: "C12", Name: "zzH12wire", Pkg: pkgCorerad, Extra: []string{pkgConfig}, Tier: "quick", Bounds: "one accepted advertising interface with the stanzas of one kind at a time (header fields; static prefix; static route; RDNSS + DNSSL; MTU + captive portal + PREF64), all durations and header fields symbolic (real parser), forwarding on/off; ndp.MarshalMessage then ndp.ParseMessage through their real bodies"},
 	{Prop: "C12", Name: "zzH12wireDep", Pkg: pkgCorerad, Extra: []string{pkgConfig}, Tier: "quick", MonoTime: true, Bounds: "one deprecated prefix or one deprecated route, lifetimes symbolic (real parser), arbitrary epoch <= now (monotonic readings)"},
 	{Prop: "C12", Name: "zzH12oracle", Pkg: pkgCorerad, Tier: "quick", Bounds: "the harnesses' definition of a lifetime on the wire against ndp's real encoder and decoder: prefix valid / preferred, route, RDNSS, DNSSL lifetime, any ns value in [0, Infinity]"},
@@ -91,7 +94,9 @@ var registry = []*HarnessSpec{
 	{Prop: "C14", Name: "zzH14a", Pkg: pkgPlugin, Tier: "quick", Params: map[string]int{"n": 3, "n@thorough": 4}, Bounds: "address list of n=3 (thorough 4) fully symbolic entries (either family, any length, six flags)"},
 	{Prop: "C15", Name: "zzH15", Pkg: pkgPlugin, Tier: "quick", Params: map[string]int{"n": 2, "n@thorough": 3}, Bounds: "route list of n=2 (thorough 3) symbolic masked prefixes of either family, any length"},
 	{Prop: "C16", Name: "zzH16", Pkg: pkgPlugin, Tier: "quick", MonoTime: true, Params: map[string]int{"mono": 1, "moving": 1}, Bounds: "epoch and three non-decreasing monotonic clock readings (what time.Now returns; possibly before the epoch), lifetimes any ns value the parser accepts below 2^32 s"},
-	{Prop: "C16", Name: "zzH16wall", Pkg: pkgPlugin, Tier: "thorough", Params: map[string]int{"mono": 0, "moving": 0}, Bounds: "same with wall-clock-only readings (years 1970..2242)"},
+	{Prop: "C16", Name: "zzH16prep", Pkg: pkgPlugin, Extra: []string{pkgSystem}, Tier: "quick", MonoTime: true, Bounds: "real Plugin.Prepare of Prefix, Route, RDNSS, LLA, MTU, DNSSL run once or twice (re-initialisation); epoch, lifetimes, flags, deprecated, wildcard symbolic; system.NewAddresser is an environment stub"},
+	{Prop: "C01", Name: "zzH16prep", Pkg: pkgPlugin, Extra: []string{pkgSystem}, Tier: "quick", MonoTime: true, Bounds: "initialising an interface (Plugin.Prepare, once or twice) never alters a configuration field of a plugin"},
+	{Prop: "C16", Name: "zzH16wall", Pkg: pkgPlugin, Tier: "thorough", Params: map[string]int{"mono": 0, "moving": 0}, Bounds: "same with wall-clock-only readings (years 1970..2242), no reading more than 100 years before the epoch", Outside: "a wall clock more than a century before the daemon's start: epoch+lifetime-now leaves the range of time.Duration (Time.Sub saturates at 292 years); unreachable in production, where the epoch and every reading come from time.Now and carry a monotonic clock (S16)"},
 	{Prop: "C01", Name: "zzH01b", Pkg: pkgPlugin, Tier: "quick", Bounds: "max_interval any ns value in [4s,1800s]"},
 	{Prop: "C13", Name: "zzH13", Pkg: pkgPlugin, Tier: "quick", Params: map[string]int{"n": 3, "n@thorough": 4}, Bounds: "address list of n=2 (thorough 3) fully symbolic entries: either family, any length, all six flags; stanza flags/lifetimes symbolic; listing failure"},
 	{Prop: "C05", Name: "zzH05b", Pkg: pkgCorerad, Tier: "quick", NoNative: true, Params: map[string]int{"iterations": 5, "iterations@thorough": 8}, Bounds: "the multicast loop as a goroutine for 5 (8) iterations with harness-owned timers, any accepted-range (min,max) at ns granularity, any draws; then cancellation"},
